@@ -455,15 +455,21 @@ func runPoolScenario(sc poolScenario) *poolResult {
 		ok := true
 		t0 := time.Now()
 		var nominal time.Duration
-		if f[0] == "idle" {
+		switch f[0] {
+		case "idle":
 			nominal = map[string]time.Duration{"short": poolShort, "medium": poolMedium, "long": poolLong}[f[1]]
+		case "call", "go", "rt", "ping", "stream", "long", "callnb", "finish", "kill":
+			nominal = poolTick // syncTick: one housekeeping period, which the model counts too
 		}
 		switch f[0] {
 		case "call", "go", "rt", "ping", "stream":
+			e.syncTick()
 			e.startCall(atoi(f[2]), f[1], f[0], false)
 		case "long":
+			e.syncTick()
 			e.startCall(atoi(f[2]), f[1], "call", true)
 		case "callnb":
+			e.syncTick()
 			e.mu.Lock()
 			e.nowait[atoi(f[2])] = true
 			e.mu.Unlock()
